@@ -251,8 +251,7 @@ class Parser:
             if self._peek_next().type == TokenType.COLON:
                 label_token = self._advance()  # consume identifier
                 self._advance()  # consume colon
-                body = self._parse_statement()
-                return LabeledStatement(Identifier(label_token.value), body)
+                return self._parse_labeled_body(label_token)
 
         # Expression statement
         return self._parse_expression_statement()
@@ -366,8 +365,7 @@ class Parser:
             if self._peek_next().type == TokenType.COLON:
                 label_token = self._advance()
                 self._advance()
-                body = self._parse_statement()
-                return LabeledStatement(Identifier(label_token.value), body)
+                return self._parse_labeled_body(label_token)
 
         # Expression statement
         return self._parse_expression_statement()
@@ -518,10 +516,44 @@ class Parser:
         self._consume_semicolon()
         return ContinueStatement(label)
 
+    def _parse_function_body(self) -> BlockStatement:
+        """Parse the braces of a function body (where `return` is allowed)."""
+        self._function_depth = getattr(self, "_function_depth", 0) + 1
+        outer_labels = getattr(self, "_active_labels", [])
+        self._active_labels = []  # labels do not reach into a nested function
+        try:
+            return self._parse_block_statement()
+        finally:
+            self._function_depth -= 1
+            self._active_labels = outer_labels
+
+    def _parse_labeled_body(self, label_token) -> LabeledStatement:
+        """Parse the statement after `label:`; a label may not be reused inside itself."""
+        labels = getattr(self, "_active_labels", None)
+        if labels is None:
+            labels = self._active_labels = []
+        if label_token.value in labels:
+            raise self._error(f"Label '{label_token.value}' has already been declared")
+        labels.append(label_token.value)
+        try:
+            body = self._parse_statement()
+        finally:
+            labels.pop()
+        return LabeledStatement(Identifier(label_token.value), body)
+
     def _parse_return_statement(self) -> ReturnStatement:
         """Parse return statement."""
+        return_token = self.previous  # The 'return' keyword
+        if getattr(self, "_function_depth", 0) == 0:
+            raise self._error("Illegal return statement")
         argument = None
-        if not self._check(TokenType.SEMICOLON) and not self._check(TokenType.RBRACE):
+        if (
+            not self._check(TokenType.SEMICOLON)
+            and not self._check(TokenType.RBRACE)
+            and not self._check(TokenType.EOF)
+            # A line break after `return` ends the statement
+            and self.current.line == return_token.line
+        ):
             argument = self._parse_expression()
         self._consume_semicolon()
         return ReturnStatement(argument)
@@ -529,6 +561,8 @@ class Parser:
     def _parse_throw_statement(self) -> ThrowStatement:
         """Parse throw statement."""
         throw_token = self.previous  # The 'throw' keyword
+        if self.current.line != throw_token.line:
+            raise self._error("Illegal newline after throw")
         argument = self._parse_expression()
         self._consume_semicolon()
         return self._loc(ThrowStatement(argument), throw_token)
@@ -567,7 +601,8 @@ class Parser:
             if self._match(TokenType.CASE):
                 test = self._parse_expression()
             elif self._match(TokenType.DEFAULT):
-                pass
+                if any(c.test is None for c in cases):
+                    raise self._error("More than one default clause in switch")
             else:
                 raise self._error("Expected 'case' or 'default'")
 
@@ -588,7 +623,7 @@ class Parser:
         """Parse function declaration."""
         name = self._expect(TokenType.IDENTIFIER, "Expected function name")
         params = self._parse_function_params()
-        body = self._parse_block_statement()
+        body = self._parse_function_body()
         return FunctionDeclaration(Identifier(name.value), params, body)
 
     def _parse_function_params(self) -> List[Identifier]:
@@ -720,11 +755,13 @@ class Parser:
     def _parse_arrow_function_single_param(self) -> ArrowFunctionExpression:
         """Parse arrow function with single unparenthesized param."""
         param = Identifier(self._advance().value)  # Get the param name
+        if self._check(TokenType.ARROW) and self.current.line != self.previous.line:
+            raise self._error("Line break before '=>'")
         self._expect(TokenType.ARROW, "Expected '=>'")
 
         if self._check(TokenType.LBRACE):
             # Block body
-            body = self._parse_block_statement()
+            body = self._parse_function_body()
             return ArrowFunctionExpression([param], body, expression=False)
         else:
             # Expression body
@@ -755,11 +792,13 @@ class Parser:
                 )
 
         self._expect(TokenType.RPAREN, "Expected ')'")
+        if self._check(TokenType.ARROW) and self.current.line != self.previous.line:
+            raise self._error("Line break before '=>'")
         self._expect(TokenType.ARROW, "Expected '=>'")
 
         if self._check(TokenType.LBRACE):
             # Block body
-            body = self._parse_block_statement()
+            body = self._parse_function_body()
             return ArrowFunctionExpression(params, body, expression=False)
         else:
             # Expression body
@@ -1285,7 +1324,7 @@ class Parser:
                     # get() {} - method shorthand named "get"
                     key = Identifier("get")
                     params = self._parse_function_params()
-                    body = self._parse_block_statement()
+                    body = self._parse_function_body()
                     value = FunctionExpression(None, params, body)
                     return Property(key, value, "init", computed=False)
                 else:
@@ -1309,7 +1348,7 @@ class Parser:
                     # set() {} - method shorthand named "set"
                     key = Identifier("set")
                     params = self._parse_function_params()
-                    body = self._parse_block_statement()
+                    body = self._parse_function_body()
                     value = FunctionExpression(None, params, body)
                     return Property(key, value, "init", computed=False)
                 else:
@@ -1349,7 +1388,11 @@ class Parser:
         if kind in ("get", "set"):
             # Getter/setter - value is a function
             params = self._parse_function_params()
-            body = self._parse_block_statement()
+            if kind == "get" and params:
+                raise self._error("Getter must not have any formal parameters")
+            if kind == "set" and len(params) != 1:
+                raise self._error("Setter must have exactly one formal parameter")
+            body = self._parse_function_body()
             value = FunctionExpression(None, params, body)
         elif self._match(TokenType.LPAREN):
             # Method shorthand: {foo() { }}
@@ -1363,7 +1406,7 @@ class Parser:
                     if not self._match(TokenType.COMMA):
                         break
             self._expect(TokenType.RPAREN, "Expected ')' after parameters")
-            body = self._parse_block_statement()
+            body = self._parse_function_body()
             value = FunctionExpression(None, params, body)
             return Property(key, value, kind, computed=computed, method=True)
         elif self._match(TokenType.COLON):
@@ -1382,5 +1425,5 @@ class Parser:
         if self._check(TokenType.IDENTIFIER):
             name = Identifier(self._advance().value)
         params = self._parse_function_params()
-        body = self._parse_block_statement()
+        body = self._parse_function_body()
         return FunctionExpression(name, params, body)
